@@ -78,7 +78,11 @@ theorem memsim_createRoot (s : Schema) (h : Inv db) {m : Members.State} (hm : Me
   · by_cases hd : RootNamed db n
     · rw [createRoot_dup s db hv hd]; exact ⟨m, rfl, hm⟩
     · rw [createRoot_ok s db hv hd]
-      exact ⟨_, rfl, mem_newCrate (i := newCrateId s db) hm (newCrateId_fresh s db) (by simp [ids, afterCreateRoot]) rfl rfl⟩
+      have hfr : m.crates.contains (newCrateId s db) = false := by
+        rw [← Bool.not_eq_true, contains_iff, hm.crates]; exact newCrateId_fresh s db
+      refine ⟨membersTell m (.newCrate (newCrateId s db)), ?_,
+        mem_newCrate (i := newCrateId s db) hm (newCrateId_fresh s db) (by simp [ids, afterCreateRoot]) rfl rfl⟩
+      simp only [membersNext, Res.isOk, outId, hfr, if_true, Bool.false_eq_true, if_false]
   · rw [createRoot_invalid s db hv]; exact ⟨m, rfl, hm⟩
 
 theorem memsim_createSub (s : Schema) (h : Inv db) {m : Members.State} (hm : MemRel m db) (c : Id) (n : Name) :
@@ -91,7 +95,11 @@ theorem memsim_createSub (s : Schema) (h : Inv db) {m : Members.State} (hm : Mem
     · rw [createSub_dup s db c hv hd]; exact ⟨m, rfl, hm⟩
     · by_cases hc : c ∈ ids db
       · rw [createSub_ok s h.idsNodup hv hd hc]
-        exact ⟨_, rfl, mem_newCrate (i := newCrateId s db) hm (newCrateId_fresh s db) (by simp [ids, afterCreateSub]) rfl rfl⟩
+        have hfr : m.crates.contains (newCrateId s db) = false := by
+          rw [← Bool.not_eq_true, contains_iff, hm.crates]; exact newCrateId_fresh s db
+        refine ⟨membersTell m (.newCrate (newCrateId s db)), ?_,
+          mem_newCrate (i := newCrateId s db) hm (newCrateId_fresh s db) (by simp [ids, afterCreateSub]) rfl rfl⟩
+        simp only [membersNext, Res.isOk, outId, hfr, if_true, Bool.false_eq_true, if_false]
       · rw [createSub_dead s db hv hd hc]; exact ⟨m, rfl, hm⟩
   · rw [createSub_invalid s db c hv]; exact ⟨m, rfl, hm⟩
 
@@ -304,11 +312,13 @@ theorem memsim_createTrack (s : Schema) (h : Inv db) {m : Members.State} (hm : M
   show ∃ m', membersNext m .createTrack (createTrack s db).2 _ _ = some m' ∧ MemRel m' (createTrack s db).1
   obtain ⟨id, seq, e, hid⟩ := createTrack_spec s db
   rw [e]
-  refine ⟨_, rfl, ?_⟩
-  show MemRel { m with tracks := m.tracks ++ [id] } _
   have hfresh : ¬ liveTrack db id := by
     rintro ⟨r, hr, h1, _⟩
     exact maxId_lt_fresh (List.mem_map_of_mem (f := (·.id)) hr) hid h1
+  have hfr : m.tracks.contains id = false := by
+    rw [← Bool.not_eq_true, contains_iff, hm.tracks]; exact hfresh
+  refine ⟨membersTell m (.newTrack id), by simp only [membersNext, Res.isOk, outId, hfr, if_true, Bool.false_eq_true, if_false], ?_⟩
+  show MemRel { m with tracks := m.tracks ++ [id] } _
   refine ⟨hm.crates, ?_, hm.pairs, hm.pairsNodup, ?_, hm.cratesNodup⟩
   · intro t
     rw [List.mem_append, List.mem_singleton, hm.tracks]
